@@ -17,7 +17,7 @@ WORDS = ["a", "b", "c", "FAIL"]
 NASTY = ['x,y', 'say "hi"', "two\nlines", "ünï", "semi;colon", "pipe|d", " lead", "'single'", "q\"mid"]
 
 
-def gen_rows(rng, *, min_rec=1, max_rec=9, ncol=None, nasty=False, blank_p=0.15, ragged_p=0.1, trailing_blank_p=0.2, hdr=None):
+def gen_rows(rng, *, min_rec=1, max_rec=9, ncol=None, nasty=False, blank_p=0.15, ragged_p=0.1, trailing_blank_p=0.2, hdr=None, extra_cells=None):
     """rows[0] is the header record; column 0 is a unique row id."""
     n = rng.randint(min_rec, max_rec)
     ncol = ncol or rng.randint(2, 4)
@@ -31,7 +31,9 @@ def gen_rows(rng, *, min_rec=1, max_rec=9, ncol=None, nasty=False, blank_p=0.15,
         r = [f"r{i}"]
         for c in range(1, ncol):
             k = rng.random()
-            if k < 0.4:
+            if extra_cells and rng.random() < 0.12:
+                r.append(rng.choice(extra_cells))
+            elif k < 0.4:
                 r.append(str(rng.randint(0, 12)))
             elif k < 0.7:
                 r.append(rng.choice(WORDS))
